@@ -34,6 +34,12 @@ func (s *LStack[T]) Push(item T) {
 	s.mu.Lock()
 	defer s.mu.Unlock()
 
+	if s.n == 0 {
+		// The stack is empty: the list only holds a leftover node, start over with the new item.
+		s.list = list.InitDList(item)
+		s.n = 1
+		return
+	}
 	s.n++
 	s.list.Append(item)
 }
@@ -58,6 +64,10 @@ func (s *LStack[T]) Peek() T {
 	s.mu.Lock()
 	defer s.mu.Unlock()
 
+	if s.n == 0 {
+		var item T
+		return item
+	}
 	return s.list.Last()
 }
 
@@ -67,6 +77,9 @@ func (s *LStack[T]) Search(item T) bool {
 	s.mu.Lock()
 	defer s.mu.Unlock()
 
+	if s.n == 0 {
+		return false
+	}
 	if _, ok := s.list.Find(item); ok {
 		return true
 	}
